@@ -408,8 +408,8 @@ ax('mdist_triangle', 'math', [L, x, y, z], mdist(L, x, z) <= mdist(L, x, y) + md
    gen=dict(L='mat(k,d)', x='vec(d)', y='vec(d)', z='vec(d)'))
 
 
-def select_axioms(terms, extra_heads=(), closure=True):
-  """axioms whose head symbols all occur in the given z3 terms (closure: axioms can introduce symbols)"""
+def select_axioms(terms, extra_heads=(), closure=True, rounds=None):
+  """axioms whose head symbols all occur in the given z3 terms (closure: axioms can introduce symbols; rounds=k: at most k rounds of that)"""
   seen = set(extra_heads)
 
   def walk(t, acc, visited):
@@ -427,15 +427,20 @@ def select_axioms(terms, extra_heads=(), closure=True):
     walk(t, seen, visited)
   chosen = []
   changed = True
+  n_round = 0
   while changed:
     changed = False
+    new = []
     for a_ in AXIOMS:
       if a_.name.startswith('fl_'):
         continue          # sign-symmetry identities: only loaded for the exact-identity obligations (axioms_only='ieee')
-      if a_ not in chosen and a_.heads <= seen:
-        chosen.append(a_)
-        if closure:
-          walk(a_.formula, seen, visited)
-          changed = True
+      if a_ not in chosen and a_ not in new and a_.heads <= seen:
+        new.append(a_)
+    chosen += new
+    if new and closure and (rounds is None or n_round < rounds):
+      for a_ in new:
+        walk(a_.formula, seen, visited)
+      changed = True
+      n_round += 1
   return chosen
 
